@@ -241,3 +241,5 @@ func (s vfsStepWriter) Write(p []byte) (int, error) {
 }
 
 func vfsJSONEncoder(w io.Writer) *json.Encoder { return json.NewEncoder(vfsStepWriter{w}) }
+
+func (g *vfsGz) Flush() error { return g.zw.Flush() }
